@@ -30,7 +30,7 @@ func init() {
 		// forget=1: the proxy client writes and closes at once without waiting for an answer (a
 		// fire-and-forget request); what it wrote must still reach the proxy server
 		sc := &vrt.Scenario{
-			Opt:      vrt.Options{Delay: c.P("delay", "1") == "1", HorizonNs: int64(200+c.PI("rounds", 1)*c.PI("gap", 100)) * int64(time.Second), MemVars: true, MemPoints: c.P("mem", "0") == "1"},
+			Opt:      vrt.Options{Delay: c.P("delay", "1") == "1", HorizonNs: int64(200+(c.PI("rounds", 1)+c.PI("slowanswer", 0))*c.PI("gap", 100)) * int64(time.Second), MemVars: true, MemPoints: c.P("mem", "0") == "1"},
 			Classify: deadlockIs("liveness: the tunnel stopped moving data on healthy connections"),
 			Main: func() {
 				uid := uidOf(0)
@@ -48,6 +48,7 @@ func init() {
 				proxySawEOF := 0
 				forget := c.P("forget", "0") == "1"
 				rounds, gap := c.PI("rounds", 1), c.PI("gap", 100)
+				slow := c.PI("slowanswer", 0)
 				proxyGot := map[byte]int{}
 				vrt.Go("proxy-server", func() {
 					for {
@@ -68,7 +69,17 @@ func init() {
 								for i := 0; i < k; i++ {
 									b[i] ^= 0x55
 								}
-								if k > 0 {
+								if k > 0 && slow > 1 {
+									// a download: the answer trickles back in `slow` pieces, `gap` seconds apart, while the
+									// proxy client sends nothing more (one-way traffic for longer than any stream timeout)
+									for p := 0; p < slow; p++ {
+										if p > 0 {
+											time.Sleep(time.Duration(gap) * time.Second)
+										}
+										pc.Write(b[p*k/slow : (p+1)*k/slow])
+									}
+									got += k
+								} else if k > 0 {
 									if !forget { // an answer to a peer that has already gone is a reset in TCP, which may discard what it wrote
 										pc.Write(b[:k])
 									}
